@@ -318,6 +318,7 @@ func (c *Client) mergeLatest(msg []byte) error {
 	// we need to merge any updates made there as well.
 	// Note that writeConfig is an atomic compare-and-swap.
 	for {
+		verifYield(c.ops, "merge:flush")
 		msg, err := c.ops.ReadConfig(c.name + "/latest")
 		if err != nil {
 			return err
@@ -385,6 +386,7 @@ func (c *Client) mergeLatestMem(msg []byte) (when int, err error) {
 	latest := c.latest
 	latestMsg := c.latestMsg
 	c.latestMu.Unlock()
+	verifYield(c.ops, "merge:read")
 
 	for {
 		// If the tree head looks old, check that it is on our timeline.
@@ -405,6 +407,7 @@ func (c *Client) mergeLatestMem(msg []byte) (when int, err error) {
 
 		// Install our msg if possible.
 		// Otherwise we will go around again.
+		verifYield(c.ops, "merge:install")
 		c.latestMu.Lock()
 		installed := false
 		if c.latest == latest {
@@ -480,6 +483,7 @@ func (c *Client) checkRecord(id int64, data []byte) error {
 	c.latestMu.Lock()
 	latest := c.latest
 	c.latestMu.Unlock()
+	verifYield(c.ops, "record:read")
 
 	if id >= latest.N {
 		return fmt.Errorf("cannot validate record %d in tree of size %d", id, latest.N)
